@@ -49,7 +49,7 @@ class Gen:
         self.o = {"max_depth": 3, "max_sites": 22, "on_error": 0.3,
                   "switch": 0.12, "pipes": 0.3, "prefixes": 0.25,
                   "macros": 0.0, "pyforms": 0.0, "i18n": 0.0,
-                  "entities": 0.0, "code": 0.0}
+                  "entities": 0.0, "code": 0.0, "mutlit": 0.0}
         self.o.update(opts or {})
         self.nsite = 0
         self.sites: dict[str, dict] = {}     # str(k) -> default value spec
@@ -211,6 +211,9 @@ class Gen:
             pool = [m for m in pool if m.get("file") != self.cur_file] or pool
         macro = ch.pick(pool)
         el["use_macro"] = macro["name"]
+        # 'nomacro | python: <macro>': the first alternative fails (no such
+        # name) and the prefixed second one is a nested expression
+        el["use_pipe"] = ch.coin(0.3)
         if macro.get("file") != self.cur_file:
             # a macro of another file: reached through load:
             self.nvar += 1
@@ -350,6 +353,20 @@ class Gen:
                 fe = {"k": "errinfo"}
                 mode = ""
             el["on_error"] = [mode, fe]
+        # a mutable literal: tal:define="Lk []" here, and a text child that
+        # appends to it and shows its length - a literal expression is
+        # evaluated anew at every reach, so the count restarts
+        if o["mutlit"] and not is_switch and not el["content"] and \
+                not el["replace"] and not in_switch and fill_slot is None \
+                and ch.coin(o["mutlit"]):
+            self.nvar += 1
+            name = "L%d" % self.nvar
+            el["define"].append(["", name, {"k": "lit", "src": ch.pick(
+                ["[]", "[0][:0]", "list()"])}])
+            el["children"].append({"t": "text", "parts": [
+                ["lit", "n"], ["count", name]]})
+            if "define" not in [x for x in ("define",) if el["define"]]:
+                pass
         # i18n:translate="" block (message id computed from the content)
         is_tr = False
         if o["i18n"] and not is_switch and not el["content"] and \
@@ -532,6 +549,8 @@ class Ser:
                 self.w("${")
                 self.expr(p[1], "interp")
                 self.w("}")
+            elif p[0] == "count":
+                self.w("${(%s.append(1), len(%s))[1]}" % (p[1], p[1]))
             else:
                 self.w("${structure: ")
                 self.expr(p[1], "interp")
@@ -616,6 +635,8 @@ class Ser:
                 start = self.pos
                 text = "%s.macros['%s']" % (n.get("use_var") or "template",
                                             n[s])
+                if n.get("use_pipe"):
+                    text = "nomacro | python: " + text
                 self.w(text)
                 self.occ.append({"start": start, "end": self.pos,
                                  "kind": "use_macro", "e": "use",
